@@ -56,7 +56,116 @@ def loop_exit_edges(g, head):
 
 
 def writeall_shape(ctx, func, cfgnode, call, R=None):
-    """Is `call` (a transport write at cfgnode) the body of a write-all loop?  Returns (ok, reason, info)."""
+    """Is `call` (a transport write at cfgnode) the body of a write-all loop?  Returns (ok, reason, info).
+    First the common spellings are matched directly; otherwise the loop is checked as an inductive linear invariant."""
+    ok, why, info = _writeall_direct(ctx, func, cfgnode, call)
+    if ok:
+        return ok, why, info
+    ok2, why2, info2 = _writeall_linear(ctx, func, cfgnode, call)
+    if ok2:
+        return ok2, why2, info2
+    return ok, why, info
+
+
+def _writeall_linear(ctx, func, cfgnode, call):
+    """start(slice written) advances by exactly the count returned per iteration, is 0 on entry, and the loop is left normally
+    only when start >= len(buffer).  Counters may count up (`sent += n`) or down (`remaining -= n`)."""
+    from ..util import lin_ast, lin_add
+    from .c06 import eval_dump
+    df = ctx.df(func)
+    g = df.g
+    if not cfgnode.loops or cfgnode.kind != "stmt" or not call.args:
+        return False, "not a loop", None
+    head = cfgnode.loops[-1]
+    inside = set(loop_nodes(g, head))
+    st = cfgnode.ast
+    # the count: v += write(..) / v -= write(..) / n = write(..) ; v += n
+    deltas = {}
+    if isinstance(st, ast.AugAssign) and isinstance(st.op, (ast.Add, ast.Sub)) and unawait(st.value) is call and isinstance(st.target, ast.Name):
+        deltas[st.target.id] = (1 if isinstance(st.op, ast.Add) else -1, cfgnode)
+    elif isinstance(st, ast.Assign) and unawait(st.value) is call and len(st.targets) == 1 and isinstance(st.targets[0], ast.Name):
+        cnt = st.targets[0].id
+        for n in inside:
+            a = n.ast
+            if n.kind == "stmt" and isinstance(a, ast.AugAssign) and isinstance(a.op, (ast.Add, ast.Sub)) and isinstance(a.target, ast.Name) and isinstance(unawait(a.value), ast.Name) and unawait(a.value).id == cnt:
+                ds = df.reaching(n, cnt)
+                if len(ds) == 1 and next(iter(ds)).node is cfgnode and a.target.id not in deltas:
+                    deltas[a.target.id] = (1 if isinstance(a.op, ast.Add) else -1, n)
+    if not deltas:
+        return False, "the byte count returned by the write is discarded", None
+    buf = unawait(call.args[0])
+    if not (isinstance(buf, ast.Subscript) and isinstance(buf.slice, ast.Slice) and buf.slice.step is None and buf.slice.lower is not None):
+        return False, "the write does not resend the remainder `buffer[start:]`", None
+    B = varkey(buf.value)
+    if B is None:
+        return False, "the buffer written is not a variable", None
+    if buf.slice.upper is not None and key(buf.slice.upper) != key(_len_of(buf.value)):
+        return False, "the slice written has an upper bound other than the buffer length", None
+    S = lin_ast(buf.slice.lower, B)
+    if S is None:
+        return False, "the start of the slice written is not a linear expression of the counters", None
+    for n in inside:
+        for d in df.node_defs.get(n, []):
+            if d.kind == "base":
+                continue
+            if d.var == B and d.strong:
+                return False, "buffer `%s` is rebound inside the write loop" % B, None
+            if d.var in S[0] and d.var in deltas and n is not deltas[d.var][1]:
+                return False, "counter `%s` is also modified at `%s`" % (d.var, norm_stmt(n.ast)), None
+            if d.var in S[0] and d.var not in deltas and d.var != "LEN":
+                return False, "`%s`, which determines where the slice starts, changes in an unrecognised way" % d.var, None
+    step = sum(S[0].get(v, 0) * deltas[v][0] for v in deltas)
+    if step != 1:
+        return False, "the start of the slice written does not advance by exactly the count returned (net %+d x count)" % step, None
+    exits = [d for (_n, d, _l) in loop_exit_edges(g, head)]
+    for v, (sg, m) in deltas.items():
+        if v not in S[0]:
+            continue
+        r = g.reach([cfgnode], avoid=[m], exc=False) if m is not cfgnode else set()
+        if head in r or any(x in r for x in exits):
+            return False, "the returned count is not added to the counter on every path", None
+    # entry: S == 0
+    init = ({}, S[1])
+    for v, k in S[0].items():
+        if v == "LEN":
+            init = lin_add(init, ({"LEN": k}, 0))
+            continue
+        outer = [d for d in df.reaching(head, v) if d.node not in inside]
+        if len(outer) != 1 or outer[0].kind != "assign" or outer[0].path or outer[0].value is None:
+            return False, "counter `%s` has no single initial value" % v, None
+        lf = lin_ast(outer[0].value, B)
+        if lf is None or any(a not in ("LEN",) for a in lf[0]):
+            return False, "counter `%s` does not start at a constant / len(%s)" % (v, B), None
+        init = lin_add(init, ({a: b * k for a, b in lf[0].items()}, lf[1] * k))
+    if init != ({}, 0):
+        return False, "the first slice written does not start at offset 0", None
+    # exits: remaining = len(B) - S <= 0
+    rem = lin_add(({"LEN": 1}, 0), S, -1)
+
+    def done(fa):
+        try:
+            xs = [eval_dump(x) for x in fa[0][1:]]
+        except Exception:   # noqa
+            return False
+        kind, pol = fa[0][0], fa[1]
+        if kind == "lt" and len(xs) == 2 and pol is False:
+            la, lb = lin_ast(xs[0], B), lin_ast(xs[1], B)
+            return la is not None and lb is not None and lin_add(lb, la, -1) == rem
+        if kind == "eq" and len(xs) == 2 and pol is True:
+            la, lb = lin_ast(xs[0], B), lin_ast(xs[1], B)
+            return la is not None and lb is not None and (lin_add(la, lb, -1) == rem or lin_add(lb, la, -1) == rem)
+        if kind == "truthy" and len(xs) == 1 and pol is False:
+            la = lin_ast(xs[0], B)
+            return la is not None and la == rem
+        return False
+    for (n, d, l) in loop_exit_edges(g, head):
+        have = set(df.facts(n)) | df.edge_facts(n, l)
+        if not any(done(fa) for fa in have):
+            return False, "the loop can be left at `%s` while bytes remain" % (norm_stmt(n.ast) if n.ast is not None else n.kind), None
+    return True, "write-all loop (linear invariant): `%s[start:]` with start advancing by the count written, until nothing remains" % B, {"buffer": B, "head": head, "offset": None}
+
+
+def _writeall_direct(ctx, func, cfgnode, call):
     df = ctx.df(func)
     g = df.g
     if not cfgnode.loops:
